@@ -27,9 +27,10 @@ from vf import core, snapshot
 
 PROP = 'C11'
 LEVEL = 'fault_enumeration'
-RULE = ('prefixes of the 24 example listings shipped with the tests and of '
-        'synthetic listings made of their editions (two editions of one '
-        'listing glued, an edition repeated under another batch number): '
+RULE = ('prefixes of the 24 example listings shipped with the tests, of two '
+        'synthetic listings made of their editions and of two listings '
+        'written by the generator of C10 (several editions, time / mu steps, '
+        'not-converged results): '
         'thorough = every byte offset of every listing; quick = every byte '
         'offset of the listings <= 12 kB and, for the larger ones, every '
         'offset inside the lines the scanner interprets, every line boundary '
@@ -124,12 +125,31 @@ def synthetic(data_by_name):
     return out
 
 
+def generated():
+    '''Listings written by the generator of C10 (several editions, time / mu
+    steps, not-converged results), small enough to be cut at every byte in
+    both tiers.'''
+    from vf.oracles import t4synth
+    out = {}
+    num = 0
+    for seed in range(400):
+        rng = core.rng_for('C11', 'generated', seed)
+        text = t4synth.write_listing(t4synth.gen_truth(rng)).encode()
+        if 4000 < len(text) <= SMALL and text.count(b'RESULTS ARE') >= 2:
+            out[f'generated_{num}.res'] = text
+            num += 1
+            if num == 2:
+                break
+    return out
+
+
 def load_all():
     data = {}
     for path in listings():
         with open(path, 'rb') as fil:
             data[os.path.basename(path)] = fil.read()
     data.update(synthetic(data))
+    data.update(generated())
     return data
 
 
